@@ -229,6 +229,13 @@ func c11Final(e *driver.Env) {
 	if !e.Quiescent {
 		return
 	}
+	// C11.a: no gap at the end either — a generator that a fail-fast error
+	// ended (nobody cancelled, the consumer took everything up to the close)
+	// has delivered every value computed before the failure
+	if endsItself && s.Out != nil && s.Out.Closed && !s.Out.Abandoned && (!e.Cancelled.Load() || s.Out.CloseSeq < e.CancelSeq) && s.M.InfMax >= 0 && len(s.Out.Got) != s.M.InfMax {
+		e.Failf("C11.a", "generator ended by a fail-fast error did not deliver every value computed before the failure", "%s/lift fail_at=%v: %d values delivered before the close, %d computed", p.Stage, p.FailAt, len(s.Out.Got), s.M.InfMax)
+		return
+	}
 	// C11.d: both stop and close their channels after cancel
 	s.Closure("C11.d", "C11.d")
 }
